@@ -95,3 +95,13 @@ Lemma pyslice_no_lower {X} (s : list X) b : pyslice s None b = pyslice s (Some 0
 Proof.
   unfold pyslice, slice_bound. cbn [Z.ltb Z.compare]. replace (Z.min 0 (zlen s)) with 0%Z by (unfold zlen; lia). reflexivity.
 Qed.
+
+(* range(a, b) *)
+Lemma zrange_nil a b : (b <= a)%Z -> zrange a b = [].
+Proof. intro H. unfold zrange. replace (Z.to_nat (b - a)) with 0 by lia. reflexivity. Qed.
+
+Lemma zrange_cons a b : (a < b)%Z -> zrange a b = a :: zrange (a + 1) b.
+Proof.
+  intro H. unfold zrange. replace (Z.to_nat (b - a)) with (S (Z.to_nat (b - (a + 1)))) by lia.
+  cbn [seq map]. f_equal; [lia|]. rewrite <- seq_shift, map_map. apply map_ext. intro i. lia.
+Qed.
